@@ -20,7 +20,11 @@ pub fn run(args: &[String]) -> String {
             }
         }
         "C09" => crate::unknown_find::search(seed),
-        "C10" | "C23" => crate::treehash_find::search(seed),
+        "C10" | "C11" | "C05" => {
+            let r = crate::opcost_find::search(seed);
+            if r.contains("\"found\":true") { r } else { crate::treehash_find::search(seed) }
+        }
+        "C23" => crate::treehash_find::search(seed),
         "C21" => crate::varint_find::search(seed),
         _ => "{\"found\":false,\"note\":\"no finder registered for this property\"}".to_string(),
     }
